@@ -666,6 +666,16 @@ func (g *gen) control(t typ, d int) (node, bool) {
 			}
 			g.h("or-values")
 			ve = node{lisp("or", a.L, b.L), "(EOr " + gl(a.G, b.G) + ")"}
+		} else if ws := g.vars(tInt, 0, true); len(ws) > 0 && g.r.Chance(10) {
+			// (setq x (values e junk)): setq returns the one value it stored
+			g.h("setq-values")
+			w, a := common.Pick(g.r, ws), g.values(tInt, d-1, true)
+			ve = node{lisp("setq", w.name, a.L), fmt.Sprintf("(ESetq [(%s, %s)])", q(w.name), a.G)}
+		} else if g.r.Chance(10) {
+			// (cond ((values e junk))): a clause without forms returns the first value of its test
+			g.h("cond-values")
+			a := g.values(tInt, d-1, true)
+			ve = node{lisp("cond", lisp(a.L)), fmt.Sprintf("(ECond [(%s, [])])", a.G)}
 		} else if g.r.Chance(65) {
 			// the values pass through forms that return what their last form returns (progn, let, let*, a lambda body)
 			ve = g.emptyScopes(g.values(tInt, d-1, true))
